@@ -198,3 +198,40 @@ def run(ctx, rep):
     bodies = list(m.calls({'state_sync', 'state_scrub', 'state_check', 'state_write', 'state_touch', 'state_pool', 'state_rehash'}))
     oku = len(ul) == 1 and all(ul[0].id in m.reach([b]) and b.id not in m.reach([ul[0]]) for b in bodies)
     rep.check(oku, 'R-C14-3', 'main: lock released only after every command body', m.file, '', function='main', construct='unlock after body')
+
+    # the quantity the short-parity interlock compares: what the parity files really hold, never more (a recorded split size larger
+    # than the file means the parity was truncated or replaced)
+    from .. import region as RG
+    import itertools as _it
+    rep.rule('R-C14-1s', 'parity_size (the size the short-parity interlock of state_sync compares with the used size) never counts bytes the split files do not hold: over recorded sizes x real file sizes it equals the sum of min(recorded, on disk)', 20)
+    ps = P.fn('parity_size')
+    rep.analysed(ps)
+    uses = [c_ for c_ in s.calls('parity_size')]
+    if not uses:
+        raise AnalysisBroken('state_sync no longer measures the parity with parity_size')
+    dh = P.distructs.get('snapraid_parity_handle'); dsp = P.distructs.get('snapraid_split_handle'); dst = P.distructs.get('stat')
+    if not (dh and dsp and dst):
+        raise AnalysisBroken('parity layouts not found')
+    def off_(d, name):
+        return [m_ for m_ in d['members'] if m_['name'] == name][0]['off']
+    H_MAC, H_MAP = off_(dh, 'split_mac'), off_(dh, 'split_map')
+    S_SIZE, S_ST = off_(dsp, 'size'), off_(dsp, 'st') + off_(dst, 'st_size')
+    for mac in (1, 2):
+        for rec in _it.product((8, 16), repeat=mac):
+            for disk in _it.product((0, 8, 16), repeat=mac):
+                R = RG.Region(P)
+                hp = RG.P_(('obj', 'handle'), 0); R.zero_regions.add(hp.reg)
+                R.mem[(hp.reg, H_MAC)] = mac
+                for k_ in range(mac):
+                    R.mem[(hp.reg, H_MAP + k_ * dsp['size'] + S_SIZE)] = rec[k_]
+                    R.mem[(hp.reg, H_MAP + k_ * dsp['size'] + S_ST)] = disk[k_]
+                out = R.array('out', [0], 8)
+                try:
+                    R.run(ps, 0, [hp, out])
+                except RG.Unsupported as e:
+                    raise AnalysisBroken('cannot interpret parity_size: %s' % e)
+                got = RG.signed(R.mem[(out.reg, 0)], 64)
+                want = sum(min(a_, b_) for a_, b_ in zip(rec, disk))
+                rep.check(got == want, 'R-C14-1s', 'recorded split sizes %s, files on disk %s' % (list(rec), list(disk)), ps.file,
+                          'reports %d bytes' % got if got == want else 'reports %d bytes of parity although the files hold only %d: a truncated or replaced parity file passes the interlock and sync re-extends it with zeros' % (got, want),
+                          function='parity_size', construct='parity size counts recorded bytes')
